@@ -1004,8 +1004,8 @@ class CE:
                 if isinstance(v, (pyfacts.Func, BoundRepo)) or (isinstance(v, tuple) and v and v[0] in ("lambda", "closure")):
                     return lambda *a: self.apply(v, list(a), {}, e, f)
                 return v
-            args = [_pyc(a) for a in args]
-            kwargs = {k: _pyc(v) for k, v in kwargs.items()}
+            if name in ("sort",):
+                kwargs = {k: (_pyc(v) if k == "key" else v) for k, v in kwargs.items()}
             for ty, names in allowed.items():
                 if isinstance(o, ty) and name in names:
                     try:
